@@ -1,6 +1,7 @@
 """C13 - concurrent suites run every test once, deliver every event, and terminate."""
 
 import datetime
+import re
 import unittest
 
 from .. import recorders, sched as S
@@ -113,6 +114,33 @@ class Worker:
         return id(self)
 
 
+def make_case_worker(i, spec, runlog, sch, kind):
+    """A sub-suite that is a testtools.TestCase instance: several of them share class and test method and differ
+    only in their attributes (parametrised clones) - they are different objects and different workers."""
+    import testtools
+    global _ParamCase
+    if _ParamCase is None:
+        class ParamCase(testtools.TestCase):      # ONE class: the instances differ in their attributes only
+            def __init__(self, worker):
+                super().__init__("test_param")
+                self.param = worker.i
+                self._worker = worker
+
+            def test_param(self):
+                pass
+
+            def run(self, result=None):
+                return self._worker.run(result)
+
+            def countTestCases(self):
+                return self._worker.countTestCases()
+        _ParamCase = ParamCase
+    return _ParamCase(Worker(i, spec, runlog, sch, kind))
+
+
+_ParamCase = None
+
+
 def snap_finished(sch, runlog):
     """Workers that had already finished their run() when run() of the suite was aborted."""
     return {"finished": sorted(r[0] for r in runlog if len(r) == 4), "runlog_len": len(runlog)}
@@ -179,7 +207,8 @@ def execute(case, chooser):
 
     def make_workers():
         # a fresh set of sub-suites per make_tests() call; the second generation is numbered 10, 11, ..
-        return [Worker(i + 10 * gen[0], spec, runlog, sch, kind) for i, spec in enumerate(workers_spec)]
+        mk = make_case_worker if case.get("case_workers") else Worker
+        return [mk(i + 10 * gen[0], spec, runlog, sch, kind) for i, spec in enumerate(workers_spec)]
     yielded = []
     route_of = (lambda i: case["same_route"]) if "same_route" in case else (lambda i: "r%d" % i)
 
@@ -222,6 +251,14 @@ def execute(case, chooser):
                 return gen_stream()
         if kind == "cts":
             target = recorders.ExtRecorder(log)
+            if case.get("target") == "nostop":
+                class NoStop(recorders.ExtRecorder):
+                    """A caller's result that has a shouldStop flag but no stop() method."""
+
+                    @property
+                    def stop(self):
+                        raise AttributeError("stop")
+                target = NoStop(log)
             wrap = None
             if abort and abort[0] == "wrap":
                 def wrap(result, n):
@@ -322,7 +359,8 @@ def check(ctx, case, sch, log, runlog, created, exc, yielded, shim, target, deta
             if not t.task.started or wi in snap["finished"]:
                 continue  # never started, or its run() had already finished when run() was aborted
             if kind == "cts":
-                told.append((t.name, res.stop_calls >= 1))
+                # told, and in a way the worker can see: its result's shouldStop is true afterwards
+                told.append((t.name, res.stop_calls >= 1 and bool(res.shouldStop)))
             else:
                 told.append((t.name, res.stop_calls >= 1 and res.shouldStop is True))
         ctx.check(all(ok for _, ok in told), "abort.started-workers-told-to-stop",
@@ -370,6 +408,12 @@ def check(ctx, case, sch, log, runlog, created, exc, yielded, shim, target, deta
                       lambda: {"cts_fault": case["cts_fault"], "events": [(e.name, e.test) for e in ev][-8:], **detail()})
             return
         broken = [e for e in ev if e.name == "addError" and e.test == "broken-runner"]
+        # each broken-runner report carries the traceback of ITS worker's error
+        owners = sorted(int(m) for e in broken
+                        for m in re.findall(r"worker (\d+) broke", (((e.payload or {}).get("details") or {}).get("traceback") or ("", b""))[1].decode("utf8", "replace"))[:1])
+        if not case.get("cts_fault"):
+            ctx.check(owners == sorted(raised), "broken-runner.reported",
+                      lambda: {"tracebacks name the errors of workers": owners, "workers that broke": sorted(raised), **detail()})
         n_broken = len(raised)      # workers whose run() did raise (one stopped earlier never gets there)
         if n_broken or any(sp.get("raise_at") is not None for sp in specs):
             ctx.check(len(broken) == n_broken, "broken-runner.reported",
@@ -518,6 +562,11 @@ def run(ctx):
                     n += 1
                     ctx.execute("schedule", {"kind": kind, "workers": [{"tests": 2, "raise_at": at, "falsy": True}, {"tests": 2}],
                                              "mode": "random", "rseed": rng.randrange(10 ** 9), "p": 0.5})
+    for rep in range(6 if ctx.quick else 40):
+        if ctx.mine():
+            n += 1
+            ctx.execute("schedule", {"kind": "cts", "workers": [{"tests": 2}, {"tests": 1}, {"tests": 2}], "case_workers": True,
+                                     "mode": "random", "rseed": rng.randrange(10 ** 9), "p": rng.choice([0.1, 0.5, 0.9])})
     # a worker whose run() lets a BaseException (sys.exit in a test) escape: run() still returns
     for kind in ("cts", "stream"):
         for at in (0, 1, 2):
@@ -561,6 +610,10 @@ def run(ctx):
                 "rseed": rng.randrange(10 ** 9), "p": rng.choice([0.1, 0.5, 0.9]), "depth": rng.randint(1, 3)}
         if kind == "stream" and rng.random() < 0.2:
             case["same_route"] = rng.choice([None, "shared"])
+        if kind == "cts" and rng.random() < 0.25:
+            case["case_workers"] = True
+        if kind == "cts" and rng.random() < 0.25:
+            case["target"] = "nostop"
         if kind == "cts" and rng.random() < 0.2:
             case["cts_fault"] = rng.randint(1, 6)
             for w in workers:
